@@ -41,6 +41,8 @@ def fresh_like(I, v, base='hv'):
         return VTuple([fresh_like(I, it, base) for it in v.items])
     if isinstance(v, VNone):
         return v
+    if isinstance(v, sym.VFrame):
+        return sym.VFrame(z3.Const(sym.fresh_name(base), v.t.sort()), v.tag)
     if isinstance(v, sym.VSet):
         c = I.st.heap[v.loc]
         I.st.heap[v.loc] = c.replace(member=z3.Const(sym.fresh_name(base), c.member.sort()),
